@@ -7,8 +7,89 @@
    not yet covered by a theorem are decided by the implementation <-> specification <->
    hardware differential run only (listed as unproved_forms in the evidence). *)
 From Coq Require Import ZArith Bool List.
-From AxV Require Import Bits Outcome Codes Iced State Rt Mem Trace Exec ExecP FrameTac FrameP ISA CodeSem IsaP.
-From AxG Require Import Flags Regs Operand Helpers Dispatch Frame.
+From AxV Require Import Bits Outcome Codes Iced State Rt Mem Trace Exec ExecP FrameTac FrameP ByteStore RegFile RegsP ISA CodeSem IsaP OperandP RmP MovP DivP Examples.
+From AxG Require Import Flags Regs Operand Helpers Dispatch Frame I_div I_idiv I_mov.
 Local Open Scope Z_scope.
 
 Print Assumptions cond_matches_sdm.
+
+(* reading an r/m64 source operand - shared by every 64-bit form with a register-or-memory
+   source: the value the specification reads, or an error exactly when the specification's load
+   faults (unmapped, past the end of its area, not readable); never a panic; state unchanged *)
+Theorem C06_rm64_source : forall c i s k,
+  wf_regs s -> Inv (mem s) -> 0 <= k < i_op_count i -> rm64_shape i k ->
+  match read_op i k 64 s with
+  | Some d => read_rm64 c i k s = (Ok d, s) /\ 0 <= d < 2 ^ 64
+  | None => exists e, read_rm64 c i k s = (Err e, s)
+  end.
+Proof. exact read_rm64_spec. Qed.
+
+(* DIV r/m64 (register or memory divisor): the step fails exactly when the CPU raises #DE - zero
+   divisor, or a quotient of RDX:RAX that does not fit 64 bits - or cannot load the divisor; in
+   every other case it completes with the architectural quotient and remainder; no third outcome
+   (panic) exists, in either build configuration; a failing step changes nothing *)
+Theorem C06_div_rm64 : forall c i s,
+  wf_regs s -> Inv (mem s) -> i_op_count i = 1 -> rm64_shape i 0 -> i_code i = C_Div_rm64 ->
+  match isa_exec (SDiv 64) i s with
+  | IDone s' _ => instr_div_rm64 c i s = (Ok tt, s')
+  | IFault FDivide => instr_div_rm64 c i s = (Err EDivZero, s)
+  | IFault FMem => exists e, instr_div_rm64 c i s = (Err e, s)
+  | IFault _ => False
+  end.
+Proof. exact div_rm64_refines. Qed.
+
+(* IDIV r/m64, for divisors with a clear sign bit (for the others see
+   C01_idiv64_negative_divisor_refuted: known finding KF-C01-idiv64-divisor) *)
+Theorem C06_idiv_rm64_partial : forall c i s,
+  wf_regs s -> Inv (mem s) -> i_op_count i = 1 -> rm64_shape i 0 -> i_code i = C_Idiv_rm64 ->
+  (forall d, read_op i 0 64 s = Some d -> d < 2 ^ 63) ->
+  match isa_exec (SIdiv 64) i s with
+  | IDone s' _ => instr_idiv_rm64 c i s = (Ok tt, s')
+  | IFault FDivide => instr_idiv_rm64 c i s = (Err EDivZero, s)
+  | IFault FMem => exists e, instr_idiv_rm64 c i s = (Err e, s)
+  | IFault _ => False
+  end.
+Proof. exact idiv_rm64_refines_nonneg_divisor. Qed.
+
+(* MOV r64, [m]: fails exactly when the load faults, nothing changes then *)
+Theorem C06_mov_r64_m64 : forall c i s,
+  i_code i = C_Mov_r64_rm64 -> wf_regs s -> wf_mem_instr i -> i_op_count i = 2 ->
+  i_op_kind i 0 = OK_Register -> i_op_kind i 1 = OK_Memory -> is_gpr64 (i_op_register i 0) = true ->
+  match isa_exec (SMov 64) i s with
+  | IDone s1 u => instr_mov_r64_rm64 c i s = (Ok tt, s1) /\ u = 0
+  | IFault _ => exists r, instr_mov_r64_rm64 c i s = (r, s) /\ forall x, r <> Ok x
+  end.
+Proof. exact mov_r64_m64_refines. Qed.
+
+(* the second half of the property - "whenever the CPU completes the instruction, the step
+   reports no error" - is false of the faithful model for pure stores into memory that is writable
+   but not readable: known finding KF-C06-store-reads-destination, with its witness.  MOV [RAX], RCX:
+   the specification stores 0x0102 little-endian; the emulator, which loads the destination before
+   its closure ignores it, fails with the permission error and changes nothing - in every build
+   configuration.  Found while proving the memory-destination forms; replayed against the
+   implementation on every run. *)
+Theorem C06_store_to_write_only_refuted :
+  wf_regs wo_state /\ Inv (mem wo_state) /\ wf_mem_instr mov_store /\
+  match isa_exec (SMov 64) mov_store wo_state with
+  | IDone s1 _ => byte_at (mem s1) 8192 = Some 2 /\ byte_at (mem s1) 8193 = Some 1
+  | _ => False
+  end /\
+  forall c, instr_mov_rm64_r64 c mov_store wo_state = (Err EPerm, wo_state).
+Proof. exact store_to_write_only_refuted. Qed.
+
+(* non-vacuity: the hypotheses hold of DIV RCX with RDX:RAX = 2^64+7, RCX = 3, and the run gives
+   6148914691236517207 remainder 2 *)
+Example C06_example :
+  (wf_regs (regs3 7 1 3) /\ Inv (mem (regs3 7 1 3)) /\ i_op_count div_rcx = 1 /\ rm64_shape div_rcx 0 /\
+   i_code div_rcx = C_Div_rm64) /\
+  forall c, match instr_div_rm64 c div_rcx (regs3 7 1 3) with
+            | (Ok tt, s') => regs s' RAX = 6148914691236517207 /\ regs s' RDX = 2
+            | _ => False
+            end.
+Proof. split; [exact div_hyps|exact div_runs]. Qed.
+
+Print Assumptions C06_rm64_source.
+Print Assumptions C06_div_rm64.
+Print Assumptions C06_idiv_rm64_partial.
+Print Assumptions C06_mov_r64_m64.
+Print Assumptions C06_store_to_write_only_refuted.
